@@ -20,7 +20,11 @@ Open Scope R_scope.
 Lemma gsum_R n f : gsum NumR n f = rsum n f.
 Proof. induction n as [|n IH]; simpl; [reflexivity|]. rewrite IH. reflexivity. Qed.
 
-Ltac toR := repeat rewrite gsum_R in *.
+Lemma nth_map_seq {X} (F : nat -> X) d a len t : (t < len)%nat -> nth t (map F (seq a len)) d = F (a + t)%nat.
+Proof.
+  intros H. rewrite (nth_indep _ d (F 0%nat)) by (rewrite map_length, seq_length; assumption).
+  rewrite map_nth. rewrite seq_nth by assumption. reflexivity.
+Qed.
 
 (* ---- log-sum inequality with zeros ---- *)
 Lemma rsum_zero_all n f : (forall i, (i < n)%nat -> 0 <= f i) -> rsum n f = 0 -> forall i, (i < n)%nat -> f i = 0.
@@ -54,10 +58,12 @@ Definition nonneg2 (f : nat -> nat -> R) := forall i j, (i < M)%nat -> (j < M)%n
 
 Definition c_L (a : nat -> R) (fs : list (nat -> nat -> R)) : R := rsum M (fun i => a i * bwd fs i).
 
-Lemma step_R a f j : step a f j = rsum M (fun i => a i * f i j).
-Proof. unfold c_step. rewrite gsum_R. reflexivity. Qed.
-Lemma bwd_cons f r i : bwd (f :: r) i = rsum M (fun j => f i j * bwd r j).
-Proof. simpl. rewrite gsum_R. reflexivity. Qed.
+Lemma tabn_id (g : nat -> R) j : (j < M)%nat -> tabn NumR M g j = g j.
+Proof. intros Hj. unfold tabn. rewrite nth_map_seq by assumption. reflexivity. Qed.
+Lemma step_R a f j : (j < M)%nat -> step a f j = rsum M (fun i => a i * f i j).
+Proof. intros Hj. unfold c_step. rewrite tabn_id by assumption. rewrite gsum_R. reflexivity. Qed.
+Lemma bwd_cons f r i : (i < M)%nat -> bwd (f :: r) i = rsum M (fun j => f i j * bwd r j).
+Proof. intros Hi. simpl. rewrite tabn_id by assumption. rewrite gsum_R. reflexivity. Qed.
 Lemma bwd_nil i : bwd [] i = 1.
 Proof. reflexivity. Qed.
 
@@ -65,12 +71,12 @@ Lemma bwd_nonneg fs : Forall nonneg2 fs -> forall i, (i < M)%nat -> 0 <= bwd fs 
 Proof.
   induction fs as [|f r IH]; intros HF i Hi.
   - rewrite bwd_nil. lra.
-  - rewrite bwd_cons. inversion HF; subst. apply rsum_nonneg. intros j Hj.
+  - rewrite bwd_cons by assumption. inversion HF; subst. apply rsum_nonneg. intros j Hj.
     apply Rmult_le_pos; [apply H1; assumption|apply IH; assumption].
 Qed.
 Lemma step_nonneg a f : nonneg1 a -> nonneg2 f -> nonneg1 (step a f).
 Proof.
-  intros Ha Hf j Hj. rewrite step_R. apply rsum_nonneg. intros i Hi.
+  intros Ha Hf j Hj. rewrite step_R by assumption. apply rsum_nonneg. intros i Hi.
   apply Rmult_le_pos; [apply Ha|apply Hf]; assumption.
 Qed.
 
@@ -79,8 +85,8 @@ Lemma c_L_cons a f r : c_L a (f :: r) = c_L (step a f) r.
 Proof.
   unfold c_L.
   transitivity (rsum M (fun i => rsum M (fun j => a i * f i j * bwd r j))).
-  - apply rsum_ext. intros i Hi. rewrite bwd_cons, <- rsum_scal. apply rsum_ext. intros; ring.
-  - rewrite rsum_swap. apply rsum_ext. intros j Hj. cbv beta. rewrite step_R, <- rsum_scal_r. reflexivity.
+  - apply rsum_ext. intros i Hi. rewrite (bwd_cons _ _ _ Hi), <- rsum_scal. apply rsum_ext. intros; ring.
+  - rewrite rsum_swap. apply rsum_ext. intros j Hj. cbv beta. rewrite step_R by assumption. rewrite <- rsum_scal_r. reflexivity.
 Qed.
 
 (* alpha_t . beta_t is the same number at every position t *)
@@ -156,7 +162,7 @@ Proof.
     (* posterior mass on (i,j) forces a'(i) and f'(i,j) positive *)
     assert (Hpos : forall i j, (i < M)%nat -> (j < M)%nat -> 0 < a i * f i j * bwd r j -> 0 < a' i /\ 0 < f' i j).
     { intros i j Hi Hj Hm. split; [|apply Hs0; assumption].
-      apply Hsa; [assumption|]. rewrite bwd_cons.
+      apply Hsa; [assumption|]. rewrite bwd_cons by assumption.
       assert (T : a i * f i j * bwd r j <= a i * rsum M (fun j0 => f i j0 * bwd r j0)).
       { rewrite <- rsum_scal. rewrite Rmult_assoc.
         apply (rsum_term_le M (fun j0 => a i * (f i j0 * bwd r j0))); [|assumption].
@@ -165,11 +171,11 @@ Proof.
       lra. }
     assert (Hsb : forall j, (j < M)%nat -> 0 < b j * bwd r j -> 0 < b' j).
     { intros j Hj Hm. destruct (pos_of_prod _ _ (Hb j Hj) (Hbr j Hj) Hm) as [Hbj Hrj].
-      unfold b in Hbj. rewrite step_R in Hbj.
+      unfold b in Hbj. rewrite step_R in Hbj by assumption.
       destruct (rsum_pos_exists M _ Hbj) as (i & Hi & Hai).
       { intros i Hi. apply Rmult_le_pos; [apply Ha|apply Hf]; assumption. }
       destruct (Hpos i j Hi Hj) as [Pa Pf]; [apply Rmult_lt_0_compat; assumption|].
-      unfold b'. rewrite step_R. apply Rlt_le_trans with (a' i * f' i j); [apply Rmult_lt_0_compat; assumption|].
+      unfold b'. rewrite step_R by assumption. apply Rlt_le_trans with (a' i * f' i j); [apply Rmult_lt_0_compat; assumption|].
       apply (rsum_term_le M (fun i0 => a' i0 * f' i0 j)); [|assumption].
       intros i0 Hi0. apply Rmult_le_pos; [apply Ha'|apply Hf']; assumption. }
     specialize (IH r' b b' (eq_add_S _ _ Hlen) Hb Hb' HFr HFr' Hsb Hsr).
@@ -184,7 +190,7 @@ Proof.
       { transitivity (rsum M (fun i => rsum M (fun j => bwd r j * (a i * f i j * (ln (a' i * f' i j) - ln (a i * f i j)))))).
         2:{ rewrite rsum_swap. apply rsum_ext. intros j Hj. cbv beta. rewrite rsum_scal. reflexivity. }
         rewrite <- rsum_plus.
-        - apply rsum_ext. intros i Hi. cbv beta. rewrite bwd_cons.
+        - apply rsum_ext. intros i Hi. cbv beta. rewrite bwd_cons by assumption.
           rewrite <- rsum_scal, <- rsum_scal_r, <- rsum_plus. apply rsum_ext. intros j Hj. cbv beta.
           assert (Hm0 : 0 <= a i * f i j * bwd r j).
           { apply Rmult_le_pos; [apply Rmult_le_pos; [apply Ha|apply Hf]|apply Hbr]; assumption. }
@@ -205,7 +211,7 @@ Proof.
         assert (L2 : forall k, (k < M)%nat -> 0 <= a' k * f' k j) by (intros k Hk; apply Rmult_le_pos; [apply Ha'|apply Hf']; assumption).
         assert (L3 : forall k, (k < M)%nat -> 0 < a k * f k j -> 0 < a' k * f' k j).
         { intros k Hk Hak. destruct (Hpos k j Hk Hj); [apply Rmult_lt_0_compat; assumption|]. apply Rmult_lt_0_compat; assumption. }
-        specialize (L L1 L2 L3). unfold b, b'. rewrite !step_R.
+        specialize (L L1 L2 L3). unfold b, b'. rewrite !step_R by assumption.
         apply (Rmult_le_compat_l (bwd r j)) in L; [|lra]. cbv beta in L.
         eapply Rle_trans; [exact L|]. right. ring.
       - rewrite <- Hrj. lra. }
